@@ -52,7 +52,11 @@ def Cur.del (c : Cur) (g : Nat) : Cur := c.filter (·.1 ≠ g)
 def source (o : Obs) : Option Nat := match o.val with | some v => some v | none => o.err
 
 /-- a joiner that was handed the zero values: it shared a flight whose function panicked (`c.val`/`c.err` never stored). -/
-def zeroJoiner (o : Obs) : Bool := !o.ran && o.val.isNone && o.err.isNone && !o.panicked
+def zeroJoiner (o : Obs) : Bool := !o.ran && o.val.isNone && o.err.isNone && !o.panicked && !o.lkerr
+
+/-- a call that can only have led a flight whose lookup failed (cancelled context): no visible event between its
+invocation and its return. -/
+def lkLeader (o : Obs) : Bool := o.lkerr && o.cx = 2 && !o.ran
 
 /-! ### SingleFlight -/
 namespace SFx
@@ -84,10 +88,12 @@ def pcOf (g : Tid) : M PC := do return (← get).s.pc g
 /-- leader `p` (waiting lazily at `d0`) deletes its entry and releases the wait group; joiners first. -/
 def forceDelete (line : Nat) (p : Tid) (pid : Nat) : M Unit := do
   let st ← get
+  -- (the leader's function returned (nil, nil): its joiners are handed the zero values, too)
+  let leaderNil : Bool := match st.cur.lookup p with | some q => q.nilv | none => false
   if (← pcOf p) = .d0 then
     for (g, o) in st.cur do
       -- (a zero-valued joiner joins the first panicking flight that is deleted while it is invoked: joining early is always possible)
-      if (← pcOf g) = .l0 ∧ !o.ran ∧ (source o = some pid ∨ (zeroJoiner o ∧ st.s.pn p ∧ st.s.key g = st.s.key p)) then advs line g [.l1, .w0, .w1]
+      if (← pcOf g) = .l0 ∧ !o.ran ∧ (source o = some pid ∨ (zeroJoiner o ∧ (st.s.pn p ∨ leaderNil) ∧ st.s.key g = st.s.key p)) then advs line g [.l1, .w0, .w1]
     -- a leader whose function panicked unwinds through the same deferred block, then the panic leaves Do (`px`)
     advs line p [.d1, .d2, .d3, (if (← get).s.pn p then .px else .r0)]
   else if (← pcOf p) = .r0 ∨ (← pcOf p) = .px then pure ()
@@ -119,7 +125,7 @@ def onEvent (e : Ev) : M Unit := do
   | .fe =>
     if o.spanic then adv ln g 0 .d0
     else
-      adv ln g o.id .m2
+      adv ln g (if o.nilv then 0 else o.id) .m2
       adv ln g 0 .d0
   | .ret =>
     if o.ran then
@@ -220,7 +226,7 @@ def onEvent (e : Ev) : M Unit := do
     | none => pure ()
     advs ln g [.b1, .c0, .c1, .c2, .c3, .f0]
     if o.spanic then tag "lc-model-fn-panics"; adv ln g 1 .fp else adv ln g 0 .f1
-  | .fe => adv ln g o.id .e0
+  | .fe => adv ln g (if o.nilv then 0 else o.id) .e0
   | .ret =>
     forceRelease ln g
     let wasPx := (← pcOf g) = .px
@@ -233,7 +239,7 @@ def onEvent (e : Ev) : M Unit := do
       match st.s.rets.head? with
       | none => throw (ln, "model: no return recorded", "return")
       | some r =>
-        if some r.val ≠ o.val ∨ r.runs ≠ o.runs then
+        if (if r.val = 0 then none else some r.val) ≠ o.val ∨ r.runs ≠ o.runs then
           throw (ln, s!"model returns val={r.val} runs={r.runs}", s!"val={o.val} runs={o.runs}")
     modify fun st => { st with cur := st.cur.del g }
 
@@ -286,11 +292,14 @@ def preMiss (line : Nat) (g : Tid) : M Unit := do
 releases the wait group; the joiners enter first. -/
 def forceDelete (line : Nat) (p : Tid) (pid : Nat) : M Unit := do
   let st ← get
+  let leaderIsLk : Bool := match st.cur.lookup p with | some q => lkLeader q | none => false
   if (← pcOf p) = .d0 ∨ (← pcOf p) = .g6 then
     for (g, o) in st.cur do
       -- (a joiner that panicked / got the nil value joins the first panicking flight that is deleted while it is invoked)
       if ((← pcOf g) = .l0 ∨ (← pcOf g) = .p0) ∧ !o.ran ∧ g ≠ p ∧
-          (source o = some pid ∨ ((o.panicked ∨ zeroJoiner o) ∧ st.s.pn p ∧ st.s.key g = st.s.key p)) then
+          ((source o = some pid ∧ !o.lkerr) ∨ ((o.panicked ∨ zeroJoiner o) ∧ st.s.pn p ∧ st.s.key g = st.s.key p)
+            -- (a call with a cancelled context of its own is not pulled in: it can lead a flight of its own later)
+            ∨ (o.lkerr ∧ o.cx ≠ 2 ∧ leaderIsLk ∧ st.s.key g = st.s.key p)) then
         preMiss line g
         advs line g [.l1, .w0, .w1]
     if (← pcOf p) = .g6 then advs line p [.g7, .g8, .m2, .d0]
@@ -307,6 +316,23 @@ def leaderOfKey (k : Key) : M (Option (Tid × Nat)) := do
     let p := st.s.leader c
     return some (p, ((st.cur.lookup p).map (·.id)).getD 0)
 
+/-- goroutine `g` (at l0, no flight registered for its key) leads a flight whose lookup fails (`Cfg.lerr`, row g3 with
+input 1): the closure returns the error at once; the leader then waits lazily at d0. -/
+def failLookupFlight (line : Nat) (g : Tid) : M Unit := do
+  tag "rm-model-lookup-error-flight"
+  advs line g [.l1, .n0, .n1, .n2, .n3, .g0, .g1, .g2, .g3]
+  adv line g 1 .m2
+  adv line g 0 .d0
+
+/-- invoked calls with a cancelled context that have not started their flight yet (they can lead a failing-lookup flight). -/
+def lkCandidates (k : Key) : M (List (Tid × Obs)) := do
+  let st ← get
+  return st.cur.filter fun (g', q) => lkLeader q && q.key = k && st.s.pc g' = .l0
+
+/-- earliest deadline first: the candidate that returns first (the others stay available for later joiners). -/
+def earliest (l : List (Tid × Obs)) : Option (Tid × Obs) :=
+  l.foldl (fun acc x => match acc with | none => some x | some a => if x.2.ret < a.2.ret then some x else some a) none
+
 def onEvent (e : Ev) : M Unit := do
   let o := e.o
   let g := o.g
@@ -320,17 +346,35 @@ def onEvent (e : Ev) : M Unit := do
     match ← leaderOfKey o.key with
     | some (p, pid) => forceDelete ln p pid
     | none => pure ()
+    -- calls that were observed to return a lookup error before this execution ends must have been in a failing-lookup
+    -- flight before this flight registers: those with a cancelled context of their own lead one now, the others join
+    let fe := o.fe.getD 0
+    let st ← get
+    let urgent := st.cur.filter fun (g', q) => g' ≠ g && q.lkerr && !q.ran && q.key = o.key && st.s.pc g' = .l0 && q.ret < fe
+    for (g', q) in urgent do
+      if q.cx = 2 && (← pcOf g') = .l0 then
+        failLookupFlight ln g'
+        forceDelete ln g' q.id
+    let st ← get
+    if urgent.any (fun (g', q) => q.cx ≠ 2 && st.s.pc g' = .l0) then
+      match earliest (← lkCandidates o.key) with
+      | some (p, q) =>
+        failLookupFlight ln p
+        forceDelete ln p q.id
+      | none => pure ()
     preMiss ln g
     -- leader; the map has no instance (else `create` would not run)
     advs ln g [.l1, .n0, .n1, .n2, .n3, .g0, .g1, .g2, .g3, .g4]
     if o.spanic then tag "rm-model-create-panics"; adv ln g 1 .gp else adv ln g 0 .g5
   | .fe =>
     if o.spanic then adv ln g 0 .d0
-    else if o.serr then
+    else if o.failed then
       adv ln g 0 .m2
       adv ln g 0 .d0
     else
-      -- create succeeded; the store is placed lazily (forceDelete)
+      -- create succeeded (or, `doTake`: the query reported not-found and the placeholder is what gets stored: `ek = 5`);
+      -- the store is placed lazily (forceDelete)
+      if o.serr then tag "rm-model-not-found-placeholder-stored-as-instance"
       adv ln g (o.id + 1) .g6
   | .ret =>
     let mut zeroOk := false
@@ -343,12 +387,34 @@ def onEvent (e : Ev) : M Unit := do
           tag "rm-model-front-lookup-hit"
           advs ln g [.p1, .p2, .p3]
         else preMiss ln g
+      if o.lkerr then
+        -- the call returned the lookup error of a flight: its own (cancelled context) or one it joined
+        preMiss ln g
+        if (← pcOf g) = .l0 then
+          match ← leaderOfKey o.key with
+          | some (p, pid) =>
+            if (match (← get).cur.lookup p with | some q => lkLeader q | none => false) then
+              tag "rm-model-joined-lookup-error-flight"
+              advs ln g [.l1, .w0, .w1]
+            else forceDelete ln p pid
+          | none => pure ()
+        if (← pcOf g) = .l0 then
+          if o.cx = 2 then
+            failLookupFlight ln g
+          else
+            match earliest ((← lkCandidates o.key).filter (·.1 ≠ g)) with
+            | some (p, _) =>
+              failLookupFlight ln p
+              tag "rm-model-joined-lookup-error-flight"
+              advs ln g [.l1, .w0, .w1]
+            | none => throw (ln, "model: no flight with a failing lookup that this call could have joined", "err=lk")
       if (← pcOf g) = .l0 then
         match ← leaderOfKey o.key with
         | some (p, pid) =>
           -- a flight is registered: join it if that explains the result, else let it finish first
           let po := (← get).cur.lookup p
-          let explains : Bool := source o == some pid || (o.val.isSome && (match po with | some q => !q.ran | none => false))
+          let explains : Bool := source o == some pid
+            || (o.val.isSome && (match po with | some q => !q.ran && !lkLeader q | none => false))
             || ((o.panicked || zeroJoiner o) && (match po with | some q => q.spanic | none => false))
           if explains then
             tag "rm-model-joined-flight"
@@ -357,6 +423,8 @@ def onEvent (e : Ev) : M Unit := do
             forceDelete ln p pid
         | none => pure ()
       if (← pcOf g) = .p3 then pure ()
+      else if (← pcOf g) = .r0 then pure ()                         -- (the leader of a failing-lookup flight, already past Done)
+      else if (← pcOf g) = .d0 then forceDelete ln g o.id           -- (… still waiting lazily at the deferred block)
       else if (← pcOf g) = .l0 then
         -- own flight: the instance must already be in the map
         tag "rm-model-own-flight-found-in-map"
@@ -386,7 +454,7 @@ def onEvent (e : Ev) : M Unit := do
         let want : Option Nat := if r.val = 0 then none else some (r.val - 1)
         if zeroOk then
           if o.val.isSome ∨ o.err.isSome then throw (ln, "model returns (nil, nil)", s!"val={o.val} err={o.err}")
-        else if want ≠ o.val ∨ (r.val = 0) ≠ o.err.isSome then
+        else if want ≠ o.val ∨ (r.val = 0) ≠ (o.err.isSome || o.lkerr) then
           throw (ln, s!"model returns instance={want}", s!"val={o.val} err={o.err}")
     modify fun st => { st with cur := st.cur.del g }
 
